@@ -108,6 +108,15 @@ type sqlGen struct {
 	// allNamedIDs: every primary key has a named ID type and link tables use sql.NullInt64
 	// keys: no plain int64 id anywhere in the file
 	allNamedIDs bool
+	sharedJSON  bool
+	shared      *Decl
+}
+
+func (g *sqlGen) sharedPayload() *Decl {
+	if g.shared == nil {
+		g.shared = g.addDecl(&Decl{Name: g.fresh("SharedProps"), Kind: DNamed, Under: Map(Basic("string"), Basic("string"))}, "models.go")
+	}
+	return g.shared
 }
 
 type sqlTable struct {
@@ -152,6 +161,7 @@ func NewSQLProg(idx int, r *rand.Rand) *Program {
 	}
 	g.makeSupport()
 	g.allNamedIDs = g.pr(0.25)
+	g.sharedJSON = g.pr(0.6)
 	if g.allNamedIDs {
 		p.Feature("sql:all-named-ids-with-nullable-link-keys")
 	}
@@ -204,7 +214,7 @@ func (g *sqlGen) makeSupport() {
 	g.strEnum = g.addDecl(&Decl{Name: g.fresh("Mode"), Kind: DEnum, Under: Basic("string")}, "models.go")
 	sblk := &ConstBlock{Grouped: true}
 	strVals := []string{"draft", "live", "gone"}
-	if g.pr(0.5) {
+	if g.pr(0.7) {
 		// values spelled like table structs of the file (whole words for the table name replacer)
 		strVals = []string{sqlTableStems[g.r.Intn(6)], "live", sqlTableStems[6+g.r.Intn(6)]}
 		g.tableHint = strVals[0] // the first table takes exactly this name
@@ -374,7 +384,7 @@ func (g *sqlGen) column(name string, tableIdx int) (cs colSpec, crudOK bool) {
 			d = g.payloads[0]
 			if !g.usedAttrs[tableIdx] {
 				g.usedAttrs[tableIdx] = true
-				f.Name, c.Field = "Attributes", "Attributes"
+				f.Name, c.Field = "Properties", "Properties"
 				g.p.Feature("sql:same-jsonb-column-in-several-tables")
 			}
 		}
@@ -584,6 +594,19 @@ func (g *sqlGen) makePrimaryTable(i int) {
 		cols = append(cols, cs)
 		g.p.Feature("sqlcol:" + strings.SplitN(cs.col.Kind, ":", 2)[0])
 	}
+	// the same payload type in two columns of one table, and under the same column name in two tables
+	if g.sharedJSON && i < 2 && !tiny {
+		d := g.sharedPayload()
+		mk := func(name string) colSpec {
+			f := &Field{Name: name, Type: Ref(d)}
+			return colSpec{field: f, col: SQLColumn{Field: name, GoType: d.Name, Kind: "jsonb:shared", SQLType: "jsonb", NotNull: true, Check: "json", Domain: "json"}}
+		}
+		cols = append(cols, mk("Attributes"))
+		if i == 0 {
+			cols = append(cols, mk("Extras"))
+		}
+		g.p.Feature("sql:same-jsonb-type-in-several-columns-and-tables")
+	}
 	// foreign keys to earlier primary tables
 	for _, prev := range g.tables[:len(g.tables)-1] {
 		if prev.truth.Primary == "" || !g.pr(0.5) || tiny {
@@ -608,7 +631,7 @@ func (g *sqlGen) makePrimaryTable(i int) {
 		t.truth.CrudOK = false // cannot be exercised against the schema (dangling reference)
 	}
 	// guard
-	if g.pr(0.25) && !tiny {
+	if g.pr(0.4) && !tiny {
 		enum, lit, member := g.intEnum, g.intEnumVals[0], g.intEnum.Blocks[0].Specs[0].Names[0]
 		if g.pr(0.4) {
 			enum, lit, member = g.strEnum, g.strEnumVals[0], g.strEnum.Blocks[0].Specs[0].Names[0]
